@@ -430,7 +430,7 @@ def flag_switch(c1: int, c2: int, a1: int, s1: bytes, a2: int, s2: bytes, fl: in
 @harness(pre=["0 <= c < NL", "LEAVES[small(c, 0, NL - 1)].dom(a, s)", "len(trail) <= 1", "0 <= k <= 5"], post="_",
          timeout=420,
          note="typed-bytes wrappers over every leaf: length-prefixed, fixed (exact size), greedy (end of window), "
-              "terminated; lazy variant forced before comparison; empty_is_none",
+              "terminated; lazy variant forced before comparison; empty_is_none (absent, and present values incl. falsy ones)",
          covers=(_S + "TypedBytesBase.serialize", _S + "TypedBytesBase.deserialize", _S + "TypedBytesBase._deserialize_inner",
                  _S + "TypedBytesTerminated.serialize", _S + "TypedBytesBase._lazy_deserialize_inner"))
 def typed_bytes(c: int, k: int, a: int, s: bytes, big: bool, pod: bool, trail: bytes) -> bool:
@@ -457,7 +457,15 @@ def typed_bytes(c: int, k: int, a: int, s: bytes, big: bool, pod: bool, trail: b
             got = got.__wrapped__
         return same(got, v) and r.tell() == len(data)
     if k == 4:
-        return roundtrip(se.TypedByteArray(se.U8, lf.spec, empty_is_none=True), None, big, pod, trail)
+        if not roundtrip(se.TypedByteArray(se.U8, lf.spec, empty_is_none=True), None, big, pod, trail):
+            return False
+        # ... and a present value (also a falsy one such as 0, "" or b"") is not confused with "absent", provided its own
+        # encoding is not empty (an empty inner encoding IS the absent form by definition of empty_is_none)
+        w = se.BufferWriter(">" if big else "<")
+        w.write(lf.spec, v)
+        if len(w.copy_buffer()) == 0:
+            return True
+        return roundtrip(se.TypedByteArray(se.U8, lf.spec, empty_is_none=True), v, big, pod, trail)
     # terminated: only for payloads that do not contain the terminator themselves
     w = se.BufferWriter(">" if big else "<")
     w.write(lf.spec, v)
@@ -560,6 +568,10 @@ def limit_lengths(k: int, n: int, fill: int, big: bool) -> bool:
         return _rejected_or_exact(se.BytesFixed(255), bytes([fill]) * n, big) and \
             _rejected_or_exact(se.Collection(255, se.U8), [fill] * n, big)
     if k == 5:
+        # character count and UTF-8 byte count differ for non-ASCII text: the limit is on the bytes written
+        for txt in ("é", "éé", "ééé", "ab€", "日本", "a€"):
+            if not _rejected_or_exact(se.StrFixed(4), txt, big):
+                return False
         return fill == 0 or fill >= 128 or _rejected_or_exact(se.StrFixed(255), chr(fill) * n, big)
     return _rejected_or_exact(se.BitField(se.U16, {"lo": 4, "hi": 12}), {"lo": n - 240, "hi": fill}, big) and \
         _rejected_or_exact(se.BitField(se.U16, {"lo": 4, "hi": 12}, shift=False), {"lo": n - 240, "hi": fill * 16}, big)
